@@ -458,9 +458,10 @@ def run_check(pid, plan, tier, seed, replay=None):
     ev = dict(property_id=pid, tier=tier, seed=seed, level=P.get("level", "model_checking"),
               coverage=cov, assumptions=P.get("assumptions", []), wall_s=round(wall, 2),
               violations=n_viol)
-    os.makedirs(EVID, exist_ok=True)
+    evid = EVID if re.match(r"^C\d\d$", pid) else os.path.join(VERIF, "growth")      # only listed properties write evidence/
+    os.makedirs(evid, exist_ok=True)
     if not machinery_errors:
-        with open(os.path.join(EVID, pid + ".json"), "w") as f:
+        with open(os.path.join(evid, pid + ".json"), "w") as f:
             json.dump(ev, f, indent=1, sort_keys=True)
             f.write("\n")
 
